@@ -2,6 +2,11 @@
 one generated C++ header + implementation + native driver per batch, and the resolved call
 scripts both drivers (native C++, wrapper through the database) execute.
 
+Every parameter is named after its position and kind (a1_string, a2_objVal): the database records the
+names, and they tell apart overloads whose wrappers have the same parameter types.  The K0 part of every
+class owns a heap-allocated std::string payload (copy and move constructors defaulted), read through the
+published accessor vf_tag(); by-value object parameters modify their own copy.
+
 Nothing here decides a verdict: the expected values come from the spec, the C++ bodies compute
 the same Sem (harness/wrapc_rt.h) and spec != native is a MachineryError in the check."""
 import json
@@ -17,8 +22,15 @@ OBJ_KINDS = ("objPtr", "objRef", "objVal", "constObjRef")
 STR_KINDS = ("cstr", "string")
 DATA_KINDS = [k for k in KIND_SEQ[:16] if k != "cstr"] + ["objPtr"]
 STMOD = 32768
-TABLE = ["", "a b", "The quick brown fox jumps over the lazy dog. " + "x" * 155, "q\"uo\\te'"]
+TABLE = ["", "a b", "The quick brown fox jumps over the lazy dog. " + "x" * 155, "q\"uo\\te'",
+         "\u00e9\u20ac\U0001f600~",          # UTF-8: 2-, 3- and 4-byte sequences
+         "a b\0tail"]                        # embedded NUL followed by more data (entry 1 up to the NUL)
 assert len(TABLE[2]) == 200
+
+
+def c_view(text):
+    """CppLibCalls!CView: a std::string as a caller sees it through a NUL-terminated char * (C back-end)"""
+    return text.split("\0")[0] if isinstance(text, str) else text
 
 CTYPE = {"i8": "signed char", "u8": "unsigned char", "i16": "short", "u16": "unsigned short", "i32": "int",
          "u32": "unsigned int", "i64": "long long", "u64": "unsigned long long", "long": "long",
@@ -68,16 +80,6 @@ def call_type(k):
 def call_sigs(s):
     n = len(s["ps"])
     return set(tuple(call_type(k) for k in s["ps"][:n - k]) for k in range(s["nd"] + 1))
-
-
-def wrap_type(k):
-    """CppLibCalls!WrapType"""
-    return "pK0" if k in ("objPtr", "objRef", "objVal") else "pcK0" if k == "constObjRef" else "str" if k in STR_KINDS else k
-
-
-def wrap_sigs(s):
-    n = len(s["ps"])
-    return set(tuple(wrap_type(k) for k in s["ps"][:n - k]) for k in range(s["nd"] + 1))
 
 
 def cpp_name_group(s):
@@ -191,7 +193,7 @@ def ptype(kind, pos, fam, sid=0):
     if kind in CTYPE:
         return CTYPE[kind]
     if kind == "string":
-        return "const std::string &" if pos % 2 == 1 else "std::string"
+        return "const std::string &" if (sid + pos) % 2 == 1 else "std::string"
     k0 = "K0_%d" % fam
     return {"objPtr": k0 + " *", "objRef": k0 + " &", "objVal": k0, "constObjRef": "const " + k0 + " &"}[kind]
 
@@ -215,6 +217,12 @@ def is_virtual(fn):
     return fn.sig["fk"] in ("method", "cmethod") and fn.sid % 4 == 1
 
 
+def pname(fn, i):
+    """parameter i (0-based): named after position and kind; the database records the name, and it is what
+    tells apart overloads whose wrappers have the same parameter types"""
+    return "a%d_%s" % (i + 1, fn.sig["ps"][i])
+
+
 def params_text(fn, with_defaults):
     s = fn.sig
     n = len(s["ps"])
@@ -224,7 +232,7 @@ def params_text(fn, with_defaults):
         d = ""
         if with_defaults and i >= n - s["nd"]:
             d = " = " + cpp_literal(k, val(k, defval(k, i + 1)))
-        out.append("%s%sa%d%s" % (t, "" if t.endswith(("*", "&")) else " ", i + 1, d))
+        out.append("%s%s%s%s" % (t, "" if t.endswith(("*", "&")) else " ", pname(fn, i), d))
     return ", ".join(out)
 
 
@@ -253,8 +261,12 @@ ARG_STMT = {"i8": "c.s(%s);", "i16": "c.s(%s);", "i32": "c.s(%s);", "u8": "c.u(%
             "cstr": "c.str(%s);", "string": "c.str(%s);"}
 
 
+K0PART = "(st + 7 * (vf_tag() + 1)) % 32768"
+
+
 def this_state_expr(cls):
-    return {"KB": "bst", "Mix": "(st + 7 * bst) % 32768"}.get(cls, "st")
+    """CppLibCalls!ThisState"""
+    return {"KB": "bst", "Mix": "(%s + 7 * bst) %% 32768" % K0PART}.get(cls, K0PART)
 
 
 def body(fn):
@@ -265,17 +277,17 @@ def body(fn):
     ts = this_state_expr(s["cls"]) if has_this(s) else "0"
     L.append("vfrt::Call c(%d, %dL, %s);" % (fn.gid, fn.sid, ts))
     for i, k in enumerate(s["ps"]):
-        a = "a%d" % (i + 1)
+        a = pname(fn, i)
         if k == "objPtr":
-            L.append("c.obj(%s == 0, %s ? %s->st : 0);" % (a, a, a))
+            L.append("c.obj(%s == 0, %s ? %s->st : 0, %s ? %s->vf_tag() : 0);" % (a, a, a, a, a))
         elif k in OBJ_KINDS:
-            L.append("c.obj(false, %s.st);" % a)
+            L.append("c.obj(false, %s.st, %s.vf_tag());" % (a, a))
         else:
             L.append(ARG_STMT[k] % a)
     L.append("long m = c.mix(); (void)m;")
     if fk == "ctor":
         if has_k0(s["cls"]):
-            L.append("st = (int)(m % 32768);")
+            L.append("st = (int)(m % 32768); vf_settag((m / 7) % 1000);")
         if has_kb(s["cls"]):
             L.append("bst = (int)((m / 32768) % 32768);")
     elif has_this(s) and not const_this(s):
@@ -292,17 +304,20 @@ def body(fn):
         if this_is_cand(s):
             L.append("cands[nc++] = (%s *)this;" % k0)
         for i in cand_params(s):
-            a = "a%d" % (i + 1)
+            a = pname(fn, i)
             if s["ps"][i] == "objPtr":
                 L.append("if (%s) cands[nc++] = %s;" % (a, a))
             else:
                 L.append("cands[nc++] = (%s *)&%s;" % (k0, a))
     for i, k in enumerate(s["ps"]):
-        a = "a%d" % (i + 1)
+        a = pname(fn, i)
         if k == "objPtr":
-            L.append("if (%s) %s->st = (%s->st + 3) %% 32768;" % (a, a, a))
+            L.append("if (%s) { %s->st = (%s->st + 3) %% 32768; %s->vf_settag((%s->vf_tag() + 1) %% 1000); }" % (a, a, a, a, a))
         elif k == "objRef":
-            L.append("%s.st = (%s.st + 3) %% 32768;" % (a, a))
+            L.append("%s.st = (%s.st + 3) %% 32768; %s.vf_settag((%s.vf_tag() + 1) %% 1000);" % (a, a, a, a))
+        elif k == "objVal":
+            # the callee's own copy: modifying it must not show in the caller's object
+            L.append("%s.st = (%s.st + 5) %% 32768; %s.vf_settag((%s.vf_tag() + 2) %% 1000);" % (a, a, a, a))
     if fk == "ctor" or r == "void":
         pass
     elif fk == "opAsg":
@@ -318,7 +333,7 @@ def body(fn):
     elif r in ("objRef", "constObjRef"):
         L.append("return *vfrt::enc_ptr(m, cands, nc, false);")
     elif r == "objVal":
-        L.append("return %s(vfrt::Raw(), (int)(m %% 32768));" % k0)
+        L.append("return %s(vfrt::Raw(), (int)(m %% 32768), (int)(((m %% 32768) / 7) %% 1000));" % k0)
     elif r in ("long", "ulong"):
         L.append("return (%s)vfrt::enc_%s(m);" % (CTYPE[r], "i64" if r == "long" else "u64"))
     else:
@@ -333,8 +348,8 @@ def definition(fn):
         return ""
     if fk == "ctor":
         c = s["cls"]
-        init = {"K0": "", "K1": " : K0_%d(vfrt::Raw(), 0)", "K2": " : K0_%d(vfrt::Raw(), 0)", "KB": "",
-                "Mix": " : K0_%d(vfrt::Raw(), 0), KB_%d(vfrt::Raw(), 0)", "K3": " : K0_%d(vfrt::Raw(), 0)"}[c]
+        init = {"K0": "", "K1": " : K0_%d(vfrt::Raw(), 0, 0)", "K2": " : K0_%d(vfrt::Raw(), 0, 0)", "KB": "",
+                "Mix": " : K0_%d(vfrt::Raw(), 0, 0), KB_%d(vfrt::Raw(), 0)", "K3": " : K0_%d(vfrt::Raw(), 0, 0)"}[c]
         init = init.replace("%d", str(fn.fam))
         head = "%s::%s(%s)%s" % (fn.cxxcls, fn.cxxcls, params_text(fn, False), init)
         pre = ["vf_init();"] if c in ("K0", "KB") else []
@@ -385,6 +400,7 @@ class Batch:
                     if fn.sig["fk"] not in ("getter", "setter"):
                         L.append("  " + declaration(fn))
                 if c == "K0":
+                    L.append("  int vf_tag() const;")       # Read: the number the payload spells (-1: no payload text)
                     L.append("  int st;")
                     for k in DATA_KINDS:
                         L.append("  %s%sd_%s;" % (ptype(k, 0, f), "" if k == "objPtr" else " ", k))
@@ -394,7 +410,15 @@ class Batch:
                     L.append("public:")
                     L.append("  virtual ~%s_%d();" % (c, f))
                     L.append("#ifndef CPPPARSER")
-                    L.append("  %s_%d(const vfrt::Raw &, int s);" % (c, f))
+                    if c == "K0":
+                        # the payload has move semantics: a heap-allocated string owned by the K0 part
+                        L.append("  K0_%d(const vfrt::Raw &, int s, int tg);" % f)
+                        L.append("  K0_%d(const K0_%d &) = default;" % (f, f))
+                        L.append("  K0_%d(K0_%d &&) = default;" % (f, f))
+                        L.append("  void vf_settag(long tg);")
+                        L.append("  std::string vf_tagtext;")
+                    else:
+                        L.append("  KB_%d(const vfrt::Raw &, int s);" % f)
                     L.append("  void vf_init();")
                     L.append("#endif")
                 L.append("};")
@@ -414,9 +438,11 @@ class Batch:
     def impl(self):
         L = ['#include "wrapc_rt.h"', '#include "lib%d.h"' % self.index, ""]
         for f in self.fams:
-            L.append("K0_%d::K0_%d(const vfrt::Raw &, int s) { vf_init(); st = s; }" % (f, f))
+            L.append("K0_%d::K0_%d(const vfrt::Raw &, int s, int tg) { vf_init(); st = s; vf_settag(tg); }" % (f, f))
+            L.append("int K0_%d::vf_tag() const { return (int)vfrt::tagnum(vf_tagtext); }" % f)
+            L.append("void K0_%d::vf_settag(long tg) { vf_tagtext = vfrt::mktag(tg); }" % f)
             L.append("K0_%d::~K0_%d() {}" % (f, f))
-            init = ["st = 0;"]
+            init = ["st = 0;", "vf_settag(0);"]
             for k in DATA_KINDS:
                 init.append("d_%s = %s;" % (k, DATA_INIT.get(k, "1")))
             L.append("void K0_%d::vf_init() { %s }" % (f, " ".join(init)))
@@ -442,7 +468,7 @@ class Batch:
             L.append("static KB_%d *kb_%d(Slot &s) { switch (s.cls) { case 4: return (KB_%d *)s.p; case 5: return (Mix_%d *)s.p; } return 0; }"
                      % ((f,) * 4))
             L.append("static void post_%d(X &x) { x.post_begin(); for (size_t i = 1; i < x.slots.size(); ++i) { Slot &s = x.slots[i]; "
-                     "if (!s.live) { x.post_dead(); continue; } K0_%d *a = k0_%d(s); KB_%d *b = kb_%d(s); x.post_live(a ? a->st : 0, b ? b->bst : 0); } x.post_end(); }"
+                     "if (!s.live) { x.post_dead(); continue; } K0_%d *a = k0_%d(s); KB_%d *b = kb_%d(s); x.post_live(a ? a->st : 0, b ? b->bst : 0, a ? a->vf_tag() : 0); } x.post_end(); }"
                      % ((f,) * 5))
             L.append("static int find_%d(X &x, const K0_%d *p) { if (!p) return 0; for (size_t i = 1; i < x.slots.size(); ++i) "
                      "if (x.slots[i].live && k0_%d(x.slots[i]) == p) return (int)i; return -1; }" % (f, f, f))
@@ -573,7 +599,7 @@ def compatible(a, b):
         return True
     if a["fk"] == "opCast":
         return False
-    return not (call_sigs(a) & call_sigs(b)) and not (wrap_sigs(a) & wrap_sigs(b))
+    return not (call_sigs(a) & call_sigs(b))
 
 
 class Packer:
